@@ -16,7 +16,8 @@ from harness.common import run_ckl, vint, vstr, vlist, raise_site, b_or
 FUNCTIONS = ["ckl.nodes.NodeBlock.evaluate", "ckl.nodes.NodeError", "ckl.errors.CklRuntimeError",
              "ckl.parser.parse_block (catch/finally clauses)", "ckl.nodes.NodeIf/NodeFor/NodeReturn/NodeBreak/NodeContinue",
              "ckl.functions.FuncLambda.execute", "ckl.interpreter.Interpreter.interpret"]
-OUTSIDE = ["quick tier: second fault is an error or a return, error values of 3 kinds", "nesting deeper than the bound", "return/break/continue inside a finally part (unspecified)",
+OUTSIDE = ["the own effect of return/break/continue inside a finally part (only: it must not swallow an error in flight)",
+           "quick tier: second fault is an error or a return, error values of 3 kinds", "nesting deeper than the bound", "return/break/continue inside a finally part (unspecified)",
            "more than two fault points firing in one run", "the hosts run.py / repl.py"]
 REACH = {"normal", "caught", "escaped", "returned"}
 
@@ -151,10 +152,8 @@ def run(ctx, cell):
     kind = ctx.int("kind", 0, 5)
     kind2 = ctx.int("kind2", 0, 5)
     quick = cell.get("tier") == "quick"
-    if sel in g.finpos:
-        ctx.assume(kind <= 2)
-    for p in sorted(g.finpos):
-        ctx.assume(b_or(sel2 != p, kind2 <= 2))
+    # return / break / continue inside a finally part: its own effect is unspecified, but it must
+    # never swallow an error that is in flight (see tdsl.FinCtl)
     if quick:
         ctx.assume(b_or(kind2 == 0, kind2 == 3))
     evk = EVKINDS[ctx.choice("evk", 3 if quick else len(EVKINDS))]
@@ -187,6 +186,8 @@ def run(ctx, cell):
     ref = tdsl.Ref(dict(vals), mk=mk, error=vstr("ERROR"))
     status, rval = ref.toplevel(prog)
     explog = vlist(ref.log)
+    if ref.all_unspecified:
+        return ["unspecified"]
     d2 = lambda: dict(detail(), expected=[status, ctx.plain(rval), ctx.plain(explog)])
     if status == "ok":
         ctx.reach("normal")
@@ -197,7 +198,8 @@ def run(ctx, cell):
         ctx.reach("escaped")
         if ctx.check(out.kind == "rt", key + ":expected-error-did-not-escape", d2):
             ctx.check(out.exc.value == rval, key + ":escaping-error-value-changed", d2)
-    ctx.check(env["log"] == explog, key + ":event-log-differs", d2)
+    if not ref.log_unspecified:
+        ctx.check(env["log"] == explog, key + ":event-log-differs", d2)
     if len(ref.log) > 0:
         ctx.reach("caught")
     ctx.reach("returned")
